@@ -66,7 +66,12 @@ def sy_cases(draw):
     cells = draw(st.lists(st.integers(0, 199), min_size=3, max_size=6,
                           unique=True))
     beyond = [draw(st.floats(0.001, 5000.0)), draw(st.floats(0.001, 5000.0))]
-    return {'params': params, 'cells': cells, 'beyond': beyond}
+    # a second function in the same process that differs from the first in
+    # ONE parameter (a calibration run varies one parameter at a time)
+    vary = draw(st.sampled_from(['sd', 'theta_s', 'b', 'psi_s']))
+    factor = draw(st.sampled_from([0.5, 0.9, 1.1, 2.0]))
+    return {'params': params, 'cells': cells, 'beyond': beyond,
+            'second': [vary, factor]}
 
 
 def check_sy(case):
@@ -85,6 +90,28 @@ def check_sy(case):
             'sy-not-discretised-profile',
             'level {} mm: got {!r} expected {!r}'.format(
                 knots_mm[i], got[i], want[i]))
+    if case.get('second'):
+        vary, factor = case['second']
+        p2 = dict(p)
+        p2[vary] = p[vary] * factor
+        if vary == 'theta_s':
+            p2[vary] = min(p2[vary], 1.0)
+        params2 = dict(copy.deepcopy(params), **p2)
+        f2 = guarded(sy_mod.create_specific_yield_function, params2)
+        want2 = reference_sy(**p2)
+        got2 = np.asarray(guarded(f2, knots_mm), dtype=float)
+        scale2 = np.maximum(np.abs(want2), 1e-3)
+        bad = np.nonzero(~(np.abs(got2 - want2) <= 1e-10 * scale2))[0]
+        if len(bad):
+            i = int(bad[0])
+            raise Violation(
+                'sy-not-discretised-profile:second-function',
+                'after a function with {}={!r}, one with {!r}: level {} mm: '
+                'got {!r} expected {!r}'.format(
+                    vary, p[vary], p2[vary], knots_mm[i], got2[i], want2[i]))
+        again = np.asarray(guarded(f, knots_mm), dtype=float)
+        if not (again == got).all():
+            raise Violation('sy-first-function-changed-by-second', vary)
     published = all(
         params[k] == gen_params.PUBLISHED_PEATCLSM_SY[k] for k in p)
     if published:
